@@ -272,8 +272,24 @@ def check_toml(case):
 # ---------------------------------------------------------------------------------------------
 # 5. YAML (strings not ending in a newline): std.parseYaml reads the document back
 
+# strings drawn from the grammar of the YAML 1.1 implicit resolvers themselves (every alternative, every optional part): the
+# spellings a plain-scalar predicate has to recognise - and near misses of them, which may stay bare
+YAML11_ALTERNATIVES = [
+    r"[-+]?0b[01_]{1,6}", r"[-+]?0[0-7_]{1,6}", r"[-+]?(0|[1-9][0-9_]{0,6})", r"[-+]?0x[0-9a-fA-F_]{1,6}", r"[-+]?[1-9][0-9_]{0,3}(:[0-5]?[0-9]){1,2}",
+    r"[-+]?[0-9][0-9_]{0,4}\.[0-9_]{0,4}([eE][-+][0-9]{1,3})?", r"[-+]?\.[0-9][0-9_]{0,3}([eE][-+][0-9]{1,3})?", r"[-+]?[0-9][0-9_]{0,2}(:[0-5]?[0-9]){1,2}\.[0-9_]{0,3}",
+    r"[-+]?\.(inf|Inf|INF)", r"\.(nan|NaN|NAN)", r"[0-9]{4}-[0-9]{2}-[0-9]{2}", r"[0-9]{4}-[0-9]{1,2}-[0-9]{1,2}([Tt]| )[0-9]{1,2}:[0-9]{2}:[0-9]{2}(\.[0-9]{0,3})?( ?(Z|[-+][0-9]{1,2}(:[0-9]{2})?))?",
+    r"yes|Yes|YES|no|No|NO|true|True|TRUE|false|False|FALSE|on|On|ON|off|Off|OFF|y|Y|n|N|~|null|Null|NULL|<<|=",
+    # near misses (must not be mistaken either way by the oracle, and exercise the predicate's boundaries)
+    r"[-+]?[0-9]{1,4}[eE][-+]?[0-9]{1,3}", r"[-+]?[0-9]{1,3}\.[0-9]{1,3}[eE][0-9]{1,3}", r"[-+]{2}[0-9]{1,3}", r"[0-9]{1,3}-[0-9]{1,3}", r"0[89][0-9]{0,3}", r"0x[g-z]{1,3}", r"[0-9_]{1,5}",
+]
+
+
+def yaml11_like():
+    return st.one_of(*[st.from_regex(r, fullmatch=True) for r in YAML11_ALTERNATIVES]).filter(lambda x: "\n" not in x)
+
+
 def no_trailing_newline_strings(max_size=10):
-    s = st.one_of(V.strings(max_size), st.sampled_from(V.YAML_HOSTILE), st.sampled_from(V.TRICKY))
+    s = st.one_of(V.strings(max_size), st.sampled_from(V.YAML_HOSTILE), st.sampled_from(V.TRICKY), yaml11_like())
     return s.filter(lambda x: not x.endswith("\n"))
 
 
@@ -319,7 +335,7 @@ def check_bare_keys(text, what):
         body = line.lstrip(" ")
         while body.startswith("- "):
             body = body[2:].lstrip(" ")
-        if not body or body[0] in "\"'[{|>-" or body in ("-",):
+        if not body or body[0] in "\"'[{|>" or body in ("-",):
             continue
         m = _re.match(r"^(.*?):( |$)", body)
         if not m:
